@@ -80,7 +80,7 @@ theorem NoneFrom.reach {k mi : Nat} {s t : Fw σ} (hmi : mi < k) (h : Reach mi s
 theorem walkSlot (hQ : GateConseq Q) : WalkCore ρ (fun (s t : Fw σ) => SlotInv Q s → SlotInv Q t) where
   refl _ h := h
   trans h₁ h₂ h := h₂ (h₁ h)
-  transition j ev s h := SlotInv.reach hQ (transition_reach ρ FUEL j ev s) h
+  transition j ev s _ h := SlotInv.reach hQ (transition_reach ρ FUEL j ev s) h
   decrement j s _ h := SlotInv.reach hQ (decrementLimit_reach ρ j s) h
   fault s f h := SlotInv.step hQ h (Step.fault (mi := 0) s f)
   signal s p h := SlotInv.step hQ h (Step.signal (mi := 0) s p)
@@ -171,10 +171,10 @@ theorem processEvent_slotInv (hQ : GateConseq Q) (e : TEvent) (s : Fw σ) (h0 : 
   have hI0 : SlotInv Q s := SlotInv.ofNone h0
   unfold processEvent
   cases e with
-  | normalRecv => exact W.transitionAll _ s hI0
-  | paddingRecv => exact W.transitionAll _ s hI0
-  | tunnelRecv => exact W.transitionAll _ s hI0
-  | tunnelSent => exact W.transitionAll _ s hI0
+  | normalRecv => exact W.transitionAll _ (by decide) s hI0
+  | paddingRecv => exact W.transitionAll _ (by decide) s hI0
+  | tunnelRecv => exact W.transitionAll _ (by decide) s hI0
+  | tunnelSent => exact W.transitionAll _ (by decide) s hI0
   | normalSent =>
     simp only []
     refine (foldl_range_inv (LoopInv Q) _ (fun k s hk => ?_) _ _ ?_).1
@@ -186,12 +186,12 @@ theorem processEvent_slotInv (hQ : GateConseq Q) (e : TEvent) (s : Fw σ) (h0 : 
     simp only []
     split
     · exact SlotInv.ofNone h0
-    · refine W.transDec mi .paddingSent _ (fun p => !p.2 && notEnded p.1 mi)
+    · refine W.transDec mi .paddingSent (by decide) _ (fun p => !p.2 && notEnded p.1 mi)
         (fun p hp => by simp only [Bool.and_eq_true] at hp; exact hp.2) ?_
       exact SlotInv.modRt_none mi _ (fun a => h0 mi a (Nat.zero_le _)) (SlotInv.ofNone h0)
   | blockingBegin m =>
     simp only []
-    refine W.foldl _ (fun s mi => W.transDec mi .blockingBegin s (fun p => !p.2 && notEnded p.1 mi && mi == m)
+    refine W.foldl _ (fun s mi => W.transDec mi .blockingBegin (by decide) s (fun p => !p.2 && notEnded p.1 mi && mi == m)
       (fun p hp => by simp only [Bool.and_eq_true] at hp; exact hp.1.2)) _ _ ?_
     split
     · exact SlotInv.ofNone h0
@@ -211,13 +211,13 @@ theorem processEvent_slotInv (hQ : GateConseq Q) (e : TEvent) (s : Fw σ) (h0 : 
     simp only []
     split
     · exact hI0
-    · exact W.transDec mi .timerBegin s (fun p => !p.2 && notEnded p.1 mi)
+    · exact W.transDec mi .timerBegin (by decide) s (fun p => !p.2 && notEnded p.1 mi)
         (fun p hp => by simp only [Bool.and_eq_true] at hp; exact hp.2) hI0
   | timerEnd mi =>
     simp only []
     split
     · exact hI0
-    · exact W.transition mi _ _ hI0
+    · exact W.transition mi _ _ (by decide) hI0
 
 
 theorem callStart_noneFrom (s : Fw σ) (t : Int) : NoneFrom 0 (s.callStart t) := by
